@@ -589,3 +589,36 @@ Theorem C01_match_sound_prefix : forall a b O p s d,
     /\ (rest = [] \/ (a = Dollar /\ rest = [c_nl])).
 Proof. exact match_sound_prefix. Qed.
 Print Assumptions C01_match_sound_prefix.
+
+(* ---- third proof-only round: end-to-end composition (Proofs/C01_e2e.v) *)
+Require Import Verif.Proofs.C01_e2e.
+
+Theorem C01_match_m_whole : forall O p s d,
+  match_pat_m O p s = Some d ->
+  exists caps, d = merge_dict (mk_dict (items p) (star p) caps) /\ s = render (items p) caps
+               /\ caps_ok O (star p) (items p) caps = true.
+Proof. exact match_m_whole. Qed.
+Print Assumptions C01_match_m_whole.
+
+(* what the program regenerated from RoutesMapper.__call__ hands out (multi-atom matcher, facts of the
+   current source): the selected route's pattern decomposes the WHOLE decoded path, the dictionary is the
+   merged dictionary of that decomposition, its predicates hold, no earlier route qualifies *)
+Theorem C01_selected_route_whole_path_generated : forall O m method raw r d,
+  fst (gen_call (match_pat_m O) m method raw) = OMatch r d ->
+  exists path pre post caps,
+    request_path raw = RPath path
+    /\ routelist m = pre ++ r :: post
+    /\ Forall (fun r' => qual (match_pat_m O) method path r' = false) pre
+    /\ path = render (items (r_pat r)) caps
+    /\ caps_ok O (star (r_pat r)) (items (r_pat r)) caps = true
+    /\ d = merge_dict (mk_dict (items (r_pat r)) (star (r_pat r)) caps)
+    /\ forallb (pred_ok method d) (r_preds r) = true.
+Proof. exact gen_selected_route_whole_path. Qed.
+Print Assumptions C01_selected_route_whole_path_generated.
+
+Theorem C01_none_selected_iff_generated : forall O m method raw path,
+  request_path raw = RPath path ->
+  (fst (gen_call (match_pat_m O) m method raw) = ONone <->
+   Forall (fun r' => qual (match_pat_m O) method path r' = false) (routelist m)).
+Proof. exact gen_none_selected_iff. Qed.
+Print Assumptions C01_none_selected_iff_generated.
